@@ -209,6 +209,17 @@ func IfaceIn(x interface{}) string {
 	}
 	return "got a value"
 }
+func MaybeNil(x int) interface{} {
+	record("MaybeNil", x)
+	if x%2 != 0 {
+		return nil
+	}
+	return x
+}
+func NilAndValue(x int) (interface{}, string) {
+	record("NilAndValue", x)
+	return nil, fmt.Sprint("second result ", x)
+}
 func IfaceVar(xs ...interface{}) int { record("IfaceVar", xs...); return len(xs) }
 func TimeRT(t time.Time) time.Time   { record("TimeRT", t); return t.Add(time.Hour) }
 func BytesRT(b []byte) []byte {
